@@ -1349,7 +1349,7 @@ def run_case(spec):
         run_fork(spec, res)
         return res
     rng = random.Random("%s:C19:%d" % (spec["seed"], spec["i"]))
-    sched.instrument([logwriter])
+    sched.instrument([logwriter], post_call=(spec.get("tier") == "thorough"))  # (thorough: switch points also after call instructions inside a line)
     if spec.get("backlog"):
         run_backlog(spec, res)
         return res
